@@ -98,7 +98,7 @@ fn reserialise(d: &str, how: usize) -> Option<String> {
 
 pub fn run(ctx: &mut Ctx, o: &AttackOpts) {
     let mut r = StdRng::seed_from_u64(o.seed);
-    let tree = TreeOpts { depth: 3, nonbmp: false, empty_arrays: true, floats: false, wild_names: false };
+    let tree = TreeOpts { depth: 3, nonbmp: false, empty_arrays: true, floats: false, wild_names: false, wide: false };
     for base in 0..o.n {
         let fmt = if base % 2 == 0 { Fmt::Compact } else { Fmt::Json };
         // bases 0..5 use the three common key types; later bases (thorough tiers) also RSA, P-384 and the wider HMACs
